@@ -144,6 +144,16 @@ func (g *gen) write() Step {
 	default:
 		st.Op, st.K = "delete", g.r.Pick(g.keys)
 	}
+	if st.Op == "insert" && st.Via != "reuse" && g.r.Chance(15) {
+		// three records in batches of one, the last one under the step's key (which may
+		// exist: then the third batch fails after two were written); the block may
+		// handle that error and go on
+		st.Op = "batches"
+		if len(g.keys) > 1 && g.r.Chance(50) {
+			st.K = g.r.Pick(g.keys)
+		}
+		st.Swallow = g.r.Chance(60)
+	}
 	return st
 }
 
@@ -465,6 +475,9 @@ func (r *run) write(tx *gorm.DB, st Step, where string) error {
 	snap := r.snapshot()
 	var res *gorm.DB
 	defer func() { r.prevRes, r.prevTx, r.prevOp = res, blockTx, st.Op }()
+	if st.Op == "batches" {
+		return r.writeBatches(tx, st, where, snap, &res)
+	}
 	switch st.Op {
 	case "insert":
 		res = tx.Create(&fam.KV{K: st.K, V: st.V})
@@ -534,6 +547,87 @@ func (r *run) write(tx *gorm.DB, st Step, where string) error {
 		apply(w)
 	}
 	return nil
+}
+
+// writeBatches: CreateInBatches of three records in batches of one, inside the
+// transaction.  It is a unit of its own (gorm wraps the batches in a nested block):
+// when a batch fails the earlier batches are undone - unless nested transactions are
+// disabled or default transactions are skipped, when nothing is undone by itself.
+func (r *run) writeBatches(tx *gorm.DB, st Step, where string, snap []int, out **gorm.DB) error {
+	items := []fam.KV{{K: st.K + "#1", V: st.V}, {K: st.K + "#2", V: st.V}, {K: st.K, V: st.V}}
+	res := tx.CreateInBatches(&items, 1)
+	*out = res
+	fired := r.firedSince(snap)
+	// per world: the first batch that hits an existing key fails
+	failAt := func(w world) int {
+		for j, it := range items {
+			if _, ok := w.top()[it.K]; ok {
+				return j
+			}
+		}
+		return -1
+	}
+	applyPrefix := func(w world, n int) {
+		for _, it := range items[:n] {
+			w.top()[it.K] = it.V
+		}
+	}
+	bare := r.c.DisableNested || r.c.SkipDefault
+	if len(fired) > 0 {
+		// a fault inside: any prefix of the batches may have stayed (an undo that was
+		// refused, an insert applied before its error)
+		var worlds []world
+		for _, w := range r.worlds {
+			max := failAt(w)
+			if max < 0 {
+				max = len(items)
+			}
+			for n := 0; n <= max; n++ {
+				if n == len(items) && res.Error != nil && !hasType(fired, "applied_err") && !hasType(fired, "ack_lost") {
+					continue
+				}
+				d := w.clone()
+				applyPrefix(d, n)
+				worlds = append(worlds, d)
+			}
+		}
+		if len(worlds) > 16 {
+			worlds = worlds[:16]
+		}
+		r.worlds = worlds
+		r.relaxed = r.relaxed || res.Error != nil
+		return res.Error
+	}
+	if res.Error != nil {
+		any := false
+		for _, w := range r.worlds {
+			any = any || failAt(w) >= 0
+		}
+		if !any && r.relaxed {
+			return res.Error // the handle refuses statements after a savepoint fault: no effect, error reported
+		}
+		r.filter(func(w world) bool { return failAt(w) >= 0 }, "tx_unusable", where+"|batches", fmt.Sprintf("%s: CreateInBatches under %s failed with %q although no fault was injected and no key exists (%s)", where, st.K, res.Error, r.cfgKey()))
+		if bare {
+			for _, w := range r.worlds {
+				applyPrefix(w, failAt(w))
+			}
+		}
+		return res.Error
+	}
+	r.filter(func(w world) bool { return failAt(w) < 0 }, "unexpected_success", where+"|batches", fmt.Sprintf("%s: CreateInBatches under %s succeeded although one of its keys exists", where, st.K))
+	for _, w := range r.worlds {
+		applyPrefix(w, len(items))
+	}
+	return nil
+}
+
+func hasType(fs []*simdrv.Fault, typ string) bool {
+	for _, f := range fs {
+		if f.Type == typ {
+			return true
+		}
+	}
+	return false
 }
 
 // read checks that the block sees exactly the model's current state.
@@ -607,6 +701,9 @@ func (r *run) body(tx *gorm.DB, b *Block, depth int, path string) error {
 		switch st.Kind {
 		case "write":
 			if err := r.write(tx, st, where); err != nil {
+				if st.Op == "batches" && st.Swallow && !r.relaxed {
+					continue // the block handles the failed batched create and goes on
+				}
 				return err
 			}
 		case "read":
